@@ -110,7 +110,7 @@ class Ctx:
         rules[0].ok(f"{label}::witnesses", f"{n} evaluated histories agree with the property", where)
         for r in rules:
             for inst in r.instances:
-                if inst["verdict"] == "VIOLATION" and pred(inst["construct"]):
+                if inst["verdict"] == "VIOLATION" and not inst.get("from_witness") and pred(inst["construct"]):
                     inst["verdict"] = "ok"
                     inst["detail"] = f"code shape not recognised by the structural rule ({inst['detail'][:90]}...); decided by the {n} witness evaluations of {label}"
                     r.discharged += 1
